@@ -180,7 +180,8 @@ static void run_linear_e(const Ctx& c) {
   label("cfg", std::to_string(cfg));
   if (c.kind == K_LINEAR) {
     if constexpr (full) {
-      static_assert(LinearPeek<typename LinT<E, 3>::type>::misaligned && LinearPeek<typename LinT<E, 5>::type>::misaligned, "cfg table");
+      // (configurations 3 and 5 had 12-byte node records before the alignment fix in LC_Linear_Graph.h;
+      //  the exclusion table only matters when that finding is listed as known)
       static_assert(!LinearPeek<typename LinT<E, 0>::type>::misaligned && !LinearPeek<typename LinT<E, 1>::type>::misaligned &&
                         !LinearPeek<typename LinT<E, 2>::type>::misaligned && !LinearPeek<typename LinT<E, 4>::type>::misaligned,
                     "cfg table");
